@@ -50,7 +50,8 @@ pub struct Cfg {
     pub lang: Option<String>,
     /// API path variant bits: 1 = set_video_track instead of video, 2 = set_audio_track
     /// instead of audio, 4 = set_create_time/set_language instead of Metadata builder,
-    /// 8 = each of video()/audio() is preceded by a call with a decoy configuration
+    /// 8 = each of video()/audio() is preceded by a call with a decoy configuration,
+    /// 16 = fast start / metadata are set before the tracks instead of after them
     pub path: u8,
 }
 
